@@ -116,6 +116,19 @@ def wildcard(res):
     d = [c.name for c in conn.execute('SELECT * FROM (SELECT c, a + 1 AS k, b FROM #t ORDER BY a)').description]
     if d != ['c', 'k', 'b']:
         res.violation('h07:wildcard:subquery', '* over a subquery returns its output columns', {'query': 'SELECT * FROM (SELECT c, a + 1 AS k, b FROM #t ORDER BY a)'}, d, ['c', 'k', 'b'])
+    # several different subqueries in one process, and nested ones: each exposes exactly its own output columns
+    seq = [('SELECT * FROM (SELECT a AS y, sum(c) AS total FROM #t GROUP BY a)', ['y', 'total']), ('SELECT * FROM (SELECT b AS x, length(b) AS s FROM #t)', ['x', 's']),
+           ('SELECT * FROM (SELECT * FROM (SELECT c, a FROM #t) WHERE a > 1)', ['c', 'a']), ('SELECT * FROM (SELECT a FROM #t)', ['a'])]
+    for q, cols in seq:
+        res.case('wild-seq:' + q)
+        try:
+            cur = conn.execute(q)
+            d = [c.name for c in cur.description]
+            rows = cur.fetchall()
+        except Exception as e:
+            d, rows = f'{type(e).__name__}: {e}', []
+        if d != cols or any(len(r) != len(cols) for r in rows):
+            res.violation('h07:wildcard:subquery-sequence', '* over a subquery returns exactly its output columns whatever was compiled before', {'query': q}, d, cols)
     lc = ledger.connect()
     expect = {}
     for tname, table in lc.tables.items():
